@@ -13,6 +13,9 @@ fn main() {
         for s in script {
             show(&mut db, &s);
         }
+        println!("tables: {:?} stored: {:?}", db.db.list_tables(), { let mut k: Vec<_> = db.db.tables.keys().cloned().collect(); k.sort(); k });
+        println!("indexes: {:?}", db.db.list_indexes());
+        for i in db.db.list_indexes() { println!("  {} on {:?}", i, db.db.get_index(&i).map(|m| m.table_name.clone())); }
         return;
     }
     for s in [
